@@ -259,7 +259,14 @@ impl<'a> Exec<'a> {
         let req = ScrapeRequest { info_hashes: ts.iter().map(|t| InfoHash(info_hash(*t))).collect() };
         let src = CanonicalSocketAddr::new(SocketAddr::new(raw_ip, 5000));
         let cfg = self.config.clone();
-        let resp = self.maps.handle_scrape_request(&cfg, src, req);
+        let maps = &mut self.maps;
+        let resp = match catch(|| maps.handle_scrape_request(&cfg, src, req)) {
+            Ok(r) => r,
+            Err(msg) => {
+                self.fail(&["C12", "C07"], "scrape-panic", "scrape-panic", format!("handle_scrape_request panicked: {}", msg));
+                return;
+            }
+        };
         stats.evaluations += 1;
         // expected: each of the first max_scrape_torrents requested torrents once
         let taken: Vec<u8> = ts.iter().take(self.scn.max_scrape_torrents).copied().collect();
